@@ -21,6 +21,8 @@ RULES = {
              'to what the file reads as (start-up included)',
     'C16.c': 'key ids are allocated by one function whose only callers are in the replication loop',
     'C16.d': 'database ids do not originate from a collection length or from a literal other than the admin 0',
+    'C16.e': 'the key -> id map only grows: ids are handed out as `len()` of the map, which is unique only while no entry is ever removed — '
+             'no remove / retain / clear / drain on Databases.keys_map in node code',
 }
 
 
@@ -201,6 +203,23 @@ def run(ck, m):
                   'the key-map writer does not unwrap %s and returns normally: after an I/O error (disk full, too many open files) snapshot_keys '
                   'still marks the log valid — the flag says valid over a missing or stale keys file, no later round rewrites it, and after a '
                   'restart the kept log names ids the keys file does not know (the next new key reuses one)' % swallowed, '%s:%s' % (wb_.file, wb_.line))
+    shr = []
+    nk = 0
+    for b2 in P.user_bodies():
+        if b2.id.startswith(('nundb::client::', 'nundb::command_line::')):
+            continue
+        for bi2, t2 in b2.calls():
+            if not t2['f'].get('dargs', '').startswith(KM):
+                continue
+            nk += 1
+            if callee_decl(t2).split('::')[-1] in ('remove', 'remove_entry', 'retain', 'clear', 'drain', 'extract_if'):
+                shr.append('%s@%s' % (short(b2.id), b2.loc(bi2)))
+    ck.ob('C16.e', 'keys_map', 'key-map-only-grows', not shr,
+          'no entry is ever taken out of the key map (%d uses examined)' % nk if not shr else
+          'an entry is removed from the key map at %s: the allocator hands out `len()` as the next id, so after the map shrank the next new key '
+          'receives the id of a key that is still alive — the records of that key decode to the new one, in this life and (the keys snapshot '
+          'stores both under one id) after every restart' % shr, shr[0] if shr else '')
+    ck.floor('C16.e', nk, 4, 'uses of the key -> id map')
     # flag writers keep memory and disk equal
     for name, want in (('invalidate_oplog', False), ('mark_op_log_as_valid', True)):
         fs = [b for b in P.user_bodies() if b.id.endswith('disk_ops::' + name)]
